@@ -551,10 +551,29 @@ static bool cop_ensure(VmState *vm, const NvmModule *module,
     return true;
 }
 
+static bool call_cop_impl(VmState *vm, const NvmModule *module, uint32_t import_idx,
+                          NanoValue *args, int arg_count,
+                          NanoValue *result, VmHeap *heap,
+                          char *error_msg, size_t error_msg_size,
+                          uint8_t **heap_payload);
+
 bool vm_ffi_call_cop(VmState *vm, const NvmModule *module, uint32_t import_idx,
                      NanoValue *args, int arg_count,
                      NanoValue *result, VmHeap *heap,
                      char *error_msg, size_t error_msg_size) {
+    /* The request buffer grows on demand; it is released here on every path */
+    uint8_t *heap_payload = NULL;
+    bool ok = call_cop_impl(vm, module, import_idx, args, arg_count, result, heap,
+                            error_msg, error_msg_size, &heap_payload);
+    free(heap_payload);
+    return ok;
+}
+
+static bool call_cop_impl(VmState *vm, const NvmModule *module, uint32_t import_idx,
+                          NanoValue *args, int arg_count,
+                          NanoValue *result, VmHeap *heap,
+                          char *error_msg, size_t error_msg_size,
+                          uint8_t **heap_payload) {
     /* Lazy launch: start cop on first FFI call, or relaunch after crash */
     if (!cop_ensure(vm, module, error_msg, error_msg_size)) {
         /* Could not start cop — fall back to in-process FFI */
@@ -563,7 +582,9 @@ bool vm_ffi_call_cop(VmState *vm, const NvmModule *module, uint32_t import_idx,
     }
 
     /* Build request payload: u32 import_idx + u16 argc + serialized args */
-    uint8_t payload[8192];
+    uint8_t stack_payload[8192];
+    uint8_t *payload = stack_payload;
+    uint32_t cap = sizeof(stack_payload);
     uint32_t pos = 0;
     memcpy(payload + pos, &import_idx, 4);
     pos += 4;
@@ -572,7 +593,18 @@ bool vm_ffi_call_cop(VmState *vm, const NvmModule *module, uint32_t import_idx,
     pos += 2;
 
     for (int i = 0; i < arg_count && i < 16; i++) {
-        uint32_t n = cop_serialize_value(&args[i], payload + pos, sizeof(payload) - pos);
+        uint32_t n = cop_serialize_value(&args[i], payload + pos, cap - pos);
+        while (n == 0 && cap < COP_MAX_PAYLOAD) {
+            /* Argument does not fit: move to (or grow) a heap buffer and retry */
+            uint32_t ncap = cap * 2;
+            uint8_t *np = realloc(*heap_payload, ncap);
+            if (!np) break;
+            if (!*heap_payload) memcpy(np, stack_payload, pos);
+            *heap_payload = np;
+            payload = np;
+            cap = ncap;
+            n = cop_serialize_value(&args[i], payload + pos, cap - pos);
+        }
         if (n == 0) {
             snprintf(error_msg, error_msg_size, "COP: failed to serialize arg %d", i);
             return false;
@@ -602,7 +634,7 @@ bool vm_ffi_call_cop(VmState *vm, const NvmModule *module, uint32_t import_idx,
     if (hdr.msg_type == COP_MSG_FFI_RESULT) {
         if (hdr.payload_len > 0) {
             /* Use stack buffer for small payloads, heap for large (arrays) */
-            uint8_t *recv_buf = (hdr.payload_len <= sizeof(payload))
+            uint8_t *recv_buf = (hdr.payload_len <= cap)
                                 ? payload
                                 : malloc(hdr.payload_len);
             if (!recv_buf) {
